@@ -5,7 +5,7 @@
 EXTENDS Notes, IOUtils
 Tr == ndJsonDeserialize(IOEnv.TRACE)
 VARIABLE l
-TInit == l = 1 /\ doc = [ev |-> <<>>, heads |-> <<>>, toc |-> FALSE, tocr |-> FALSE, table |-> FALSE, nest |-> "plain", nested |-> FALSE, base |-> 0, capsp |-> FALSE]
+TInit == l = 1 /\ doc = [ev |-> <<>>, heads |-> <<>>, toc |-> FALSE, tocr |-> FALSE, table |-> FALSE, nest |-> "plain", nested |-> FALSE, base |-> 0, capsp |-> FALSE, cross |-> FALSE]
 \* observed: calls = <<kind, shown, hasid>>, entries[kind] = <<shown id, backref or "">>
 Renaming(exp, obs) ==       \* obs is exp with numbers renamed injectively (identity when anchors are not random)
   /\ Len(exp) = Len(obs)
@@ -13,8 +13,8 @@ Renaming(exp, obs) ==       \* obs is exp with numbers renamed injectively (iden
   /\ \A i, j \in 1 .. Len(exp) : exp[i][1] = exp[j][1] => ((exp[i][2] = exp[j][2]) <=> (obs[i][2] = obs[j][2]))
 RhoOf(exp, obs, k, n) == LET hits == {i \in 1 .. Len(exp) : exp[i][1] = k /\ exp[i][2] = n} IN
                          IF hits = {} THEN "" ELSE obs[CHOOSE i \in hits : TRUE][2]
-EntriesOK(d, r, k, random) ==
-  LET exp == Entries(d, k) obs == r.entries[k] cexp == Calls(d) IN
+EntriesOKd(d, r, k, random, drop) ==          \* drop: that many entries at the end of the expected list may be missing (0 everywhere but in the deviation below)
+  LET exp == SubSeq(Entries(d, k), 1, Len(Entries(d, k)) - drop) obs == r.entries[k] cexp == Calls(d) IN
   /\ Len(obs) = Len(exp)
   /\ \A n \in 1 .. Len(exp) :
        LET shown == IF random THEN (IF exp[n][2] THEN RhoOf(cexp, r.calls, k, n) ELSE obs[n][1]) ELSE ToString(n) IN
@@ -27,13 +27,16 @@ XrefByTitle(r) == r.xrefs = Xrefs(r.doc)
 \* a heading with a manual label before other headings: the table of contents numbers the later headings differently from the body
 TocOutOfStep(r) == /\ \E i \in 1 .. Len(r.doc.heads) : r.doc.heads[i].manual
                    /\ r.doc.toc /\ Len(r.toc) = Len(TocOf(r.doc, r.hids))
+EntriesOK(d, r, k, random) == EntriesOKd(d, r, k, random, 0)
+\* (KNOWN_FINDINGS.txt, C10) a footnote first called from inside a glossary entry: the footnote list has been written by then, the call's entry never appears
+NoteCalledFromLaterList(r) == LET d == r.doc IN CrossCall(d) /\ ~UsesL(d, "fn", "b") /\ EntriesOKd(D2(d), r, "fn", r.random, 1)
 TNext == /\ l <= Len(Tr) /\ l' = l + 1 /\ UNCHANGED doc
          /\ LET r == Tr[l] IN
             IF r.e = "reset" THEN TRUE
             ELSE /\ r.e = "anchors" /\ r.src = Src(r.doc)
                  /\ Renaming(Calls(D2(r.doc)), r.calls)
                  /\ (~r.random => \A i \in 1 .. Len(r.calls) : r.calls[i][2] = ToString(Calls(D2(r.doc))[i][2]))
-                 /\ \A k \in Kinds : EntriesOK(D2(r.doc), r, k, r.random)
+                 /\ \A k \in Kinds : EntriesOK(D2(r.doc), r, k, r.random) \/ (k = "fn" /\ NoteCalledFromLaterList(r))
                  /\ r.tids = (IF r.doc.table THEN <<TableId(r.doc)>> ELSE <<>>)                               \* the id placed on the captioned table (never random)
                  /\ (r.labels => /\ r.hids = HeadIds(r.doc)                                                  \* the id placed on each heading
                                  /\ (r.doc.toc => r.toc = TocOf(r.doc, HeadIds(r.doc)))                                    \* every TOC entry points at it
